@@ -4,6 +4,7 @@ import (
 	"bytes"
 	"fmt"
 	"sync"
+	"time"
 
 	"verif/harness/gen"
 	"verif/harness/mon"
@@ -30,8 +31,9 @@ func init() {
 			"a sysex exceeds the buffer when its total length including F0 and F7 is larger than SysExBufferSize",
 			"at the drivers.Reader level the callback contract pads 0/1-data messages with zeros to 3 bytes and reports a stray F7 as [F7 00 00] (internal contract with midi.ListenTo); at the midi.ListenTo level nothing may be delivered for a stray F7",
 		},
-		Require: []string{"streams_exhaustive", "streams_random", "deliveries_l1", "deliveries_l2", "sysex_overflows", "stray_f7", "suffix_checks", "abandoned_messages", "large_buffer_sysex_streams", "concurrent_reader_streams", "streams_with_clock_wrap"},
-		Run:     runC06,
+		Require:         []string{"streams_exhaustive", "streams_random", "deliveries_l1", "deliveries_l2", "sysex_overflows", "stray_f7", "suffix_checks", "abandoned_messages", "large_buffer_sysex_streams", "concurrent_reader_streams", "streams_with_clock_wrap", "stall_pauses_over_2s"},
+		FakeTimeWorkers: 2,
+		Run:             runC06,
 		Post: func(m *mon.Merged) {
 			for _, cfg := range c06Cfgs {
 				reach := m.Sets["reachable:"+cfg.String()]
@@ -280,6 +282,51 @@ func runC06(c *mon.Ctx) {
 		if i < 1 {
 			c.Sample("random-stream", mon.Hex(head(s, 80)))
 		}
+	})
+
+	// hostile streams with real pauses between the deliveries (workers on the virtual process clock)
+	c.EachFT("stalls", c.N(3000, 200_000), func(i int64, r *mon.Rand) {
+		n := r.Range(5, 120)
+		s := make([]byte, n)
+		mode := r.Intn(3)
+		for j := range s {
+			switch mode {
+			case 0:
+				s[j] = r.Byte()
+			case 1:
+				s[j] = A[r.Intn(len(A))]
+			default: // sysex heavy
+				switch r.Intn(6) {
+				case 0:
+					s[j] = 0xF0
+				case 1:
+					s[j] = 0xF7
+				default:
+					s[j] = r.Byte() & 0x7F
+				}
+			}
+		}
+		parts := r.Partition(n, r.Pick(1, 3, 8))
+		chunks := make([][]byte, len(parts))
+		deltas := make([]int32, len(parts))
+		pauses := make([]time.Duration, len(parts))
+		off := 0
+		for j, p := range parts {
+			chunks[j] = s[off : off+p]
+			off += p
+			deltas[j] = int32(r.Intn(50))
+			if r.P(1, 2) {
+				pauses[j] = drawPause(r)
+				if pauses[j] >= 2*time.Second {
+					c.Count("stall_pauses_over_2s", 1)
+				}
+			}
+		}
+		livePause = pauses
+		defer func() { livePause = nil }()
+		k.check(s, chunks, deltas, i%2 == 0)
+		c.Count("stall_streams", 1)
+		c.DistinctBytes(s, []byte(fmt.Sprint(parts, pauses)))
 	})
 
 	// sysex lengths around the growth steps of large configured buffers, after a garbage prefix:
